@@ -320,17 +320,55 @@ def check_properties_file(prop, workdir):
                 closed=closed, forbidden=forbidden, out=out)
 
 
-def scan_forbidden():
+REQ_RE = re.compile(r"(?:From\s+Verif\s+)?Require\s+(?:Import\s+|Export\s+)?([^.]*(?:\.[A-Za-z_][^.\s]*)*)\s*\.(?:\s|$)")
+
+
+def dep_closure(rel_files):
+    """Transitive closure of the development's own files required by the given ones
+    (parsed from the `From Verif Require Import A.B C.D.` lines)."""
+    seen, todo = set(), list(rel_files)
+    while todo:
+        f = todo.pop()
+        if f in seen or not os.path.exists(os.path.join(COQ, f)):
+            continue
+        seen.add(f)
+        txt = re.sub(r"\(\*.*?\*\)", "", open(os.path.join(COQ, f)).read(), flags=re.S)
+        for m in re.finditer(r"\bRequire\s+(?:Import\s+|Export\s+)?((?:[A-Za-z_][\w']*(?:\.[A-Za-z_][\w']*)*\s*)+)\.", txt):
+            for name in m.group(1).split():
+                if name.startswith("Verif."):
+                    name = name[len("Verif."):]
+                cand = name.replace(".", "/") + ".v"
+                if os.path.exists(os.path.join(COQ, cand)):
+                    todo.append(cand)
+    return sorted(seen)
+
+
+def scan_forbidden(rel_files=None):
     bad = []
-    pat = re.compile(r"\b(Admitted|admit|Axiom|Parameter|Conjecture|Admit Obligations|bypass_check)\b|Unset Guard Checking|Unset Positivity Checking|Unset Universe Checking|-type-in-type|-impredicative-set")
-    for d, _, fs in os.walk(COQ):
-        for f in fs:
-            if f.endswith(".v"):
-                p = os.path.join(d, f)
-                txt = open(p).read()
-                txt = re.sub(r"\(\*.*?\*\)", "", txt, flags=re.S)
-                for m in pat.finditer(txt):
-                    bad.append("%s: %s" % (os.path.relpath(p, COQ), m.group(0)))
+    pat = re.compile(r"\b(Admitted|admit|Axiom|Axioms|Parameter|Parameters|Conjecture|Admit Obligations|bypass_check)\b|Unset Guard Checking|Unset Positivity Checking|Unset Universe Checking|-type-in-type|-impredicative-set")
+    files = rel_files
+    if files is None:
+        files = []
+        for d, _, fs in os.walk(COQ):
+            for f in fs:
+                if f.endswith(".v"):
+                    files.append(os.path.relpath(os.path.join(d, f), COQ))
+    for rel in files:
+        p = os.path.join(COQ, rel)
+        txt = open(p).read()
+        txt = re.sub(r"\(\*.*?\*\)", "", txt, flags=re.S)
+        for m in pat.finditer(txt):
+            bad.append("%s: %s" % (rel, m.group(0)))
+        # Variable/Hypothesis outside a Section declare axioms too
+        depth = 0
+        for line in txt.splitlines():
+            ls = line.strip()
+            if re.match(r"Section\s", ls):
+                depth += 1
+            elif re.match(r"End\s", ls) and depth > 0:
+                depth -= 1
+            elif depth == 0 and re.match(r"(Variable|Variables|Hypothesis|Hypotheses|Context)\b", ls):
+                bad.append("%s: %s outside a Section" % (rel, ls.split()[0]))
     return bad
 
 
@@ -402,7 +440,7 @@ def do_check(pid, tier, replay):
         judge_ok = rc_j == 0
         coq_make([prop.COQ_PROPS + "o"])
         pinfo = check_properties_file(prop, workdir)
-        forbidden = scan_forbidden()
+        forbidden = scan_forbidden(dep_closure([prop.COQ_PROPS, prop.JUDGE.replace('.', '/') + '.v']))
         proof_broken = None
         if pinfo["rc"] != 0:
             proof_broken = "theorem file %s no longer compiles: %s" % (prop.COQ_PROPS, (pinfo["err"] or "")[-1500:])
